@@ -52,7 +52,14 @@ class Pipe:
                 suffix, mp = ';*', 'star'
             else:
                 mp = [tuple(x) for x in form]
-                suffix = ''.join(';' + (s if s == d else f'{s}>{d}') for s, d in mp)
+                def render(s_, d_):
+                    # the documented elided forms: 'that>' maps that -> main, '>other' maps main -> other (used for every second such pair)
+                    if s_ != d_ and d_ == 'main' and len(s_) % 2 == 0:
+                        return f'{s_}>'
+                    if s_ != d_ and s_ == 'main' and len(d_) % 2 == 0:
+                        return f'>{d_}'
+                    return s_ if s_ == d_ else f'{s_}>{d_}'
+                suffix = ''.join(';' + render(s_, d_) for s_, d_ in mp)
             eph = inp.get('eph', 0)
             srcs.append(addr + '?' * eph + suffix)      # the ephemeral marker belongs to the address, topics follow
             self.edges.append({'cons': nid, 'pub': inp['pub'], 'out': inp.get('out', 0), 'form': form, 'map': mp, 'eph': eph})
